@@ -360,7 +360,8 @@ class Ctx:
                 print("  " + text.replace("\n", "\n  ")[:900])
         if len(self.violations) > shown:
             print("  (%d further divergences not shown)" % (len(self.violations) - shown))
-        shutil.rmtree(self.work, ignore_errors=True)
+        if not os.environ.get("VERIF_KEEP_WORK"):
+            shutil.rmtree(self.work, ignore_errors=True)
         if self.violations:
             return 1
         print("OK property=%s tier=%s states=%d transitions=%d traces=%d evaluations=%d wall=%.1fs" %
